@@ -4,6 +4,8 @@ import CogentModel.Model.DataStore
 import CogentModel.Model.DataStoreSqlite
 import CogentModel.Spec.DataStoreDict
 import CogentModel.Spec.DataStoreSqlSafe
+import CogentModel.Gen.C13Fmt
+import CogentModel.Gen.C13Sql
 open CogentModel CogentModel.KV CogentModel.DataStore
 
 /-! line protocol of the C13 driver: data travel as strings, the checksum function is the
@@ -158,6 +160,15 @@ def handle (cmd : String) (j : J) : Except String J :=
       ("suffixes", J.arr ((pathSuffixes uid).map S)), ("special", J.bool (special uid)),
       ("infix", J.bool (isInfix sfx uid)), ("ends", J.bool (endsWith uid sfx)),
       ("replace", S (replaceAll uid sfx suffix))])
+  | "fmt" => do
+    -- the TRANSLATED get_format_suffixes and the pathlib primitives it is written with; the translated sqlite identifier rewriting
+    let uid := (← (← j.get "uid").toStr).toList
+    let fs := match Gen.C13Fmt.get_format_suffixes uid with
+      | none => J.str "IndexError"
+      | some r => J.arr [optS r.1, optS r.2]
+    pure (J.obj [("fs", fs), ("suffix", S (pathSuffixDot uid)), ("suffixes", J.arr ((pathSuffixesDot uid).map S)),
+      ("lower", S (lower uid)), ("nodot", S (reSubLeadDot [] uid)),
+      ("sqlids", J.arr [S (Gen.C13Sql.write_id uid), S (Gen.C13Sql.write_nc_id uid), S (Gen.C13Sql.write_log_id uid)])])
   | _ => throw s!"unknown command {cmd}"
 
 def main : IO Unit := driverLoop handle
